@@ -18,6 +18,8 @@ THEOREMS = [
     "Mesa.Legacy.C09_get_neighbors_exact",
     "Mesa.Legacy.C09_network_spec",
     "Mesa.Legacy.C09_network_all_simple_graphs",
+    "Mesa.Legacy.C09_network_contents_spec",
+    "Mesa.Legacy.C09_network_neighbors_exact",
 ]
 COUNTS = {"quick": 1200, "thorough": 80000}
 TRUSTED = [
